@@ -145,6 +145,14 @@ func RefScalar(k Kind, base int, s string) (interface{}, Verdict) {
 			return Upper(""), Accept
 		}
 		return Upper("U:" + s), Accept
+	case KTri:
+		switch s {
+		case "on":
+			return Tri(true), Accept
+		case "off":
+			return Tri(false), Accept
+		}
+		return nil, Reject
 	case KBool:
 		switch s {
 		case "1", "t", "T", "TRUE", "true", "True":
